@@ -59,21 +59,35 @@ def missing_source_family(ctx, rng, n):
         if not cmds:
             continue
         victim = rng.choice(cmds)
+        # which declared source goes missing: the statement's first input, or a source of its own declared as a further explicit,
+        # an implicit or an order-only input, or one that stands behind a phony alias the statement names (in any of these kinds)
+        how = rng.choice(("primary", "primary", "explicit", "implicit", "order-only", "order-only", "alias"))
+        gone = victim["ins"][0]
+        if how != "primary":
+            gone = "extra%d.txt" % kx
+            sc["sources"][gone] = "// a further source\n"
+            slot = {"explicit": "ins", "implicit": "iins", "order-only": "oins"}.get(how) or rng.choice(("ins", "iins", "oins", "oins"))
+            if how == "alias":
+                sc["stmts"].insert(0, simlib.St("grp%d" % kx, ["grp%d" % kx], ins=[gone], kind="phony"))
+                victim[slot].append("grp%d" % kx)
+                how = "alias/" + slot
+            else:
+                victim[slot].append(gone)
         steps, scs = [], []
         if rng.random() < 0.5:
             b = g.build_step(sc)
             b["targets"] = []
             steps.append(b)
             scs.append(copy.deepcopy(sc))
-        steps.append({"op": "rm", "path": victim["ins"][0]})
+        steps.append({"op": "rm", "path": gone})
         scs.append(copy.deepcopy(sc))
         ex = {"op": "build", "targets": [victim["outs"][0]] + ([] if rng.random() < 0.5 else [rng.choice(sc["stmts"])["outs"][0]]),
               "j": rng.choice((1, 3)), "k": rng.choice((1, 0)),
-              "sched": {"mode": "all", "cap": 5, "keep_world": True}, "_missing_source": victim["ins"][0]}
+              "sched": {"mode": "all", "cap": 5, "keep_world": True}, "_missing_source": gone, "_missing_how": how, "_missing_victim": victim["outs"][0]}
         steps.append(ex)
         scs.append(copy.deepcopy(sc))
         scn = simlib.scenario_json(sc, steps)
-        out.append((scn, {"scs": scs, "explore_step": len(steps) - 1, "missing_source": victim["ins"][0]}))
+        out.append((scn, {"scs": scs, "explore_step": len(steps) - 1, "missing_source": gone}))
     return out
 
 
